@@ -128,6 +128,9 @@ class TFModel(SymVal):
             return self.vm.const(vs[-1][0] if name == 'maxval' else vs[0][0])
         if name in S.ARITY:
             return self._callee_contract(name, self.sem, f'spec:{self.logic.Meta.name}.{name}')
+        from pyvc.interp import private_helper
+        ok, v = private_helper(it, self.tfcls, name, self, getattr(self, 'inlined', None))
+        if ok: return v
         raise Outside(f'TruthFunction.{name}')
     def sym_super_getattr(self, it, defcls, name):
         """`super().<Op>` inside a body defined in `defcls`: the call resolves into the TruthFunction of the
